@@ -388,7 +388,7 @@ func ruleC02R3(c *Ctx) {
 	for _, op := range c.chanFieldOps(fAckerChan) {
 		if op.Kind == "send" {
 			nSend++
-			c.check(anchorName(op.In.Parent()) == aSendChunk, "C02.R3", op.In.Parent(), "send on ackerChan", op.In.Pos(),
+			c.check(ownedBy(op.In.Parent(), aSendChunk), "C02.R3", op.In.Parent(), "send on ackerChan", op.In.Pos(),
 				"chunks are queued for ACK only in sendChunk", "a chunk is queued for ACK outside sendChunk")
 		}
 	}
@@ -958,7 +958,7 @@ func ruleC02R7(c *Ctx) {
 	for _, f := range c.P.universe {
 		for _, s := range sitesWhere(f, func(s ssa.CallInstruction) bool { return fieldCallOf(s, fLeft) }) {
 			n++
-			c.check(anchorName(f) == aCWRun, "C02.R7", f, "call of onChunkLeft", s.Pos(), "the leftover callback is only called from ClientWorker.run", "onChunkLeft called outside ClientWorker.run")
+			c.check(ownedBy(f, aCWRun), "C02.R7", f, "call of onChunkLeft", s.Pos(), "the leftover callback is only called from ClientWorker.run", "onChunkLeft called outside ClientWorker.run")
 		}
 	}
 	c.floor("C02.R7", "onChunkLeft call sites", n, 1)
